@@ -120,6 +120,13 @@ def families(tier):
         out.append(dict(prop='C14', family='c14.burst.raced', id=f'c14/raced-h{hist}-{src}', cfg=dict(bound=2 if deep else 1, cap=6000 if deep else 700, window=0.25, max_targets=1, busy=True),
                         params=dict(K=52, hist=hist, src=src, reoffer=True),
                         scn=dict(buses={'A': dict(hist=hist)}, order=['A'], handlers=hs, main=main, actors=actors, forwards=[], settle=3.0, no_watch=True)))
+    # accepted events of a class whose instances are falsy (an empty batch): they go through the queue like any other
+    for n, hshape in itertools.product((1, 3), ('ret', 'pause')):
+        hs = [dict(bus='A', pat='E', name='he', prog=[('ret', 1)] if hshape == 'ret' else [('pause',), ('ret', 1)]), dict(bus='A', pat='X', name='hx', prog=[('ret', 0)], kind='sync'),
+              dict(bus='A', pat='P', name='hp', prog=[('disp', 'A', 'E', 'ff'), ('ret', 2)])]
+        main = [('disp', 'A', 'E', 'ff')] * 1 + [('disp', 'A', 'X1', 'ff'), ('disp', 'A', 'P', 'ff')] + [('disp', 'A', f'X{i + 2}', 'ff') for i in range(n)] + [('pause',), ('idle', 'A')]
+        out.append(dict(prop='C14', family='c14.falsy_event_through_the_queue', id=f'c14/falsy-n{n}-{hshape}', cfg=cfg, params=dict(K=n, hist=50, src='main', reoffer=False, revived=True),
+                        scn=dict(buses={'A': {}}, order=['A'], handlers=hs, main=main, actors=[], forwards=[], settle=3.0, no_watch=True)))
     # the bus's background task is cancelled from outside without stop() (a supervisor cancelling every task) while events it had accepted are still queued; the
     # library revives such a bus on the next dispatch() / wait_until_idle(): what it had accepted is still processed then
     for hshape, nq, revive, gap in itertools.product(('pause', 'pause_pause'), (1, 3), ('dispatch', 'idle'), (0.05, 0.3)):
@@ -202,7 +209,7 @@ def oracle(spec, res):
                 out.append(V('rejected_event_was_processed', ev, in_handler=in_handler))
         elif v == 'done':
             n = cnt.get(ev, 0)
-            if n != 1 and ev[0] in 'XYP' and not spec['family'].startswith('c14.generated'):  # (generated corpus: several handlers per event, and a parent's time-out legitimately cancels a child before it starts)
+            if n != 1 and ev[0] in 'XYPE' and not spec['family'].startswith('c14.generated'):  # (generated corpus: several handlers per event, and a parent's time-out legitimately cancels a child before it starts)
                 out.append(V('accepted_event_dropped' if n == 0 else 'accepted_event_handled_twice', f'{ev}: handled {n} times; dispatch outcomes {outcomes}', in_handler=in_handler))
     # per (bus, event): a rejection must not leave the bus in event_path (a later forward into that bus would be skipped as a 'loop')
     per_bus = {}
